@@ -350,7 +350,9 @@ def controller_case(draw):
     if mode == "complete":
         cur = n - 1
         comps = [[["finished", True] for _ in row] for row in comps]
-    c.update({"ncomps": ncomps, "current": cur, "comps": comps})
+    # while the status round is in progress the controller may observe components (a concurrent finishedCheck): the
+    # round reports one consistent snapshot, taken at its start
+    c.update({"ncomps": ncomps, "current": cur, "comps": comps, "observe_during_round": draw(st.booleans())})
     return c
 
 
@@ -409,6 +411,20 @@ def check_controller(case, ctx: Ctx):
         if not captured:
             raise RuntimeError("harness: StatusMonitor.run did not create a monitor")
         mon._status_database = None
+        flipped = []
+        if case.get("observe_during_round"):
+            orig_status = ctrl.get_stage_status
+
+            def status_then_observe(idx):
+                r = orig_status(idx)
+                if idx != cur and idx <= cur:
+                    for k, (state, observed) in enumerate(case["comps"][idx]):
+                        ref = "stage%d.c%d%s" % (idx, idx, "" if k == 0 else "x%d" % k)
+                        if state in ("finished", "failed", "shutdown") and not observed and ref not in ctrl.comp_done:
+                            ctrl.comp_done.add(ref)          # the controller observes it right after it was counted
+                            flipped.append(ref)
+                return r
+            ctrl.get_stage_status = status_then_observe
         captured[0](False)
         total = mon.statusFile.totalProgress()
         # the statement's reading: weighted sum of per-stage progress; a stage whose components were all observed counts
@@ -430,6 +446,8 @@ def check_controller(case, ctx: Ctx):
             raise Violation("total-progress-not-one-when-complete@controller", desc)
         if abs(total - model) > 1e-9:
             raise Violation("total-progress-not-weighted-sum@controller", desc + " model %r" % model)
+        if flipped:
+            ctx.rec.label("controller:observed-during-round")
         ctx.rec.label("controller:complete" if complete else "controller:in-progress",
                       "controller:unobserved-final-in-other-stage" if unobserved_final_elsewhere else
                       "controller:observed-consistent")
